@@ -152,7 +152,7 @@ def make_definition(rnd, name, kind):
         i = ident(rnd, used_id)
         s = symbol(rnd, used_sym, allow_dup=rnd.random() < 0.08)
         text, val = literal(rnd, sc)
-        pf = prefix_for(rnd, val) if si else None
+        pf = prefix_for(rnd, val) if (si or rnd.random() < 0.5) else None     # prefixed units are legal under a reference unit without prefix
         us.append(UnitSpec(i, s, pf, val))
         attrs.append('#[unit(%s, "%s"%s, %s%s)]' % (i, s, (", " + pf) if pf else "", text, ', "%s of the reference"' % text if rnd.random() < 0.4 else ""))
     return Definition(name, QtySpec("crate", "corpus::" + name.lower(), name, ref_i, us), attrs, "quantity with reference unit " + name)
